@@ -19,6 +19,8 @@ theorem inv_ev {t0 tab : Tab} {out : List Ev} (h : TabInv t0 tab out) (ev : Ev) 
   cases ev with
   | code b =>
     exact ⟨by intro s; simp [applyEv, h.has s], by intro s; simp [applyEv, h.defined s], by intro s hs; simp [applyEv, h.used s hs]⟩
+  | effect b =>
+    exact ⟨by intro s; simp [applyEv, h.has s], by intro s; simp [applyEv, h.defined s], by intro s hs; simp [applyEv, h.used s hs]⟩
   | define x =>
     by_cases hx : tab.has x = true
     · refine ⟨?_, ?_, ?_⟩
